@@ -674,7 +674,7 @@ MANIFEST = dict(
         "system is necessary for 'non-decreasing, within half a frame'). warp_1d_grid is also interpreted over exact values up to the "
         "spline (a leaf recording its control points): for centres inside, at the edges of and beyond the valid frames, shifts of either "
         "sign and sequences shorter than the padded extent the three control points are the first frame, the clamped (shifted) centre "
-        "and the last VALID frame. Necessary conditions of C08; spline and grid_sample numerics are not decided. Generic G44: a constructor that keeps a value under the name of one of its formals fills it from that formal, not from a sibling formal. Evaluation mode returns the input itself: the return under `not training`, or - when both modes share one return - the function specialised on training = False."),
+        "and the last VALID frame. Necessary conditions of C08; spline and grid_sample numerics are not decided. Generic G44: a constructor that keeps a value under the name of one of its formals fills it from that formal, not from a sibling formal. Evaluation mode returns the input itself: the return under `not training`, or - when both modes share one return - the function specialised on training = False. With one axis warped only, the other axis of the sampling grid is the identity grid of grid_sample(align_corners=False) (apply_parameters interpreted with warp_1d_grid / grid_sample as leaves)."),
     level_note="Trusted: python ast; torch.rand in [0,1), .long() truncation; real-arithmetic idealisation of the eps tricks. "
                "Known finding F25: centre + shift in (L-1, L) is clamped onto the pinned last-frame knot (singular up to eps).",
     technique="static analysis: abstract interpretation of the draw function over rationals compared with the documented formulas on a finite grid, slot-role dataflow, path typestate, eval-path identity, producer/consumer term composition over a finite grid; abstract interpretation of the mask application over {None, bool, set of bands} for the four masking combinations; warp control points by interpretation of warp_1d_grid over exact values up to the spline leaf",
